@@ -13,8 +13,10 @@ END       == "END"        \* pipeline.BuiltInFilterEnd
 NoJump    == "-"          \* value of a jumpIf map for a result that is not mapped
 DefaultNS == "DEFAULT"    \* context.DefaultNamespace
 
-(* filter kinds of the test-only scripted filter: kind name -> declared results (filters.Kind.Results) *)
-Kinds == [K12 |-> {"r1", "r2"}, K1 |-> {"r1"}, K123 |-> {"r1", "r2", "r3"}]
+(* filter kinds of the test-only scripted filter: kind name -> declared results (filters.Kind.Results). *)
+(* One, several and no declared results; KC declares two results that differ only in case.  Result  *)
+(* names are compared as they are written: "R1", "r", "r11" and "" are not the result "r1".           *)
+Kinds == [K12 |-> {"r1", "r2"}, K1 |-> {"r1"}, K123 |-> {"r1", "r2", "r3"}, K0 |-> {}, KC |-> {"R1", "r1"}]
 
 (* A filter definition is [name, kind]; a flow node is [filter, alias, ns, jump] where jump is a   *)
 (* function from result names to a target name or NoJump.                                          *)
